@@ -120,10 +120,14 @@ impl ValueVector {
         if self.validity.is_none() {
             self.validity = Some(vec![true; self.len]);
         }
-        if let Some(validity) = &mut self.validity
-            && index < validity.len()
-        {
-            validity[index] = false;
+        if let Some(validity) = &mut self.validity {
+            // Values pushed after the bitmap was created did not extend it.
+            if validity.len() < self.len {
+                validity.resize(self.len, true);
+            }
+            if index < validity.len() {
+                validity[index] = false;
+            }
         }
     }
 
